@@ -294,18 +294,49 @@ def check_no_inplace_on_borrowed(quals, prop):
         fn = fs.node
         params = {a.arg for a in fn.args.args + fn.args.kwonlyargs}
         borrowed = {}
-        for n in ast.walk(fn):
-            if isinstance(n, ast.Assign) and len(n.targets) == 1 and isinstance(n.targets[0], ast.Name) and isinstance(n.value, (ast.Subscript, ast.Attribute)):
-                base = n.value
-                while isinstance(base, (ast.Subscript, ast.Attribute)):
-                    base = base.value
-                if isinstance(base, ast.Name) and (base.id in params or base.id in borrowed):
-                    borrowed[n.targets[0].id] = n.lineno
+        VIEWISH = ("to_value", "view", "ravel", "reshape", "squeeze", "asarray", "asanyarray", "atleast_1d", "atleast_2d", "transpose")
+
+        def root(e):
+            """the name an expression is a piece / possible view of:  a[...]  a.attr  a.to_value(u)  np.asarray(a) ..."""
+            while True:
+                if isinstance(e, (ast.Subscript, ast.Attribute)):
+                    e = e.value
+                elif isinstance(e, ast.Call) and isinstance(e.func, ast.Attribute) and e.func.attr in VIEWISH:
+                    # method of the object (x.to_value(u)) or numpy function of it (np.asarray(x))
+                    inner = e.func.value
+                    if isinstance(inner, ast.Name) and inner.id in ("np", "numpy") and e.args:
+                        e = e.args[0]
+                    else:
+                        e = inner
+                else:
+                    return e
+        for _ in range(3):
+            for n in ast.walk(fn):
+                if isinstance(n, ast.Assign) and len(n.targets) == 1 and isinstance(n.targets[0], ast.Name) \
+                        and isinstance(n.value, (ast.Subscript, ast.Attribute, ast.Call)):
+                    if isinstance(n.value, ast.Call) and not (isinstance(n.value.func, ast.Attribute) and n.value.func.attr in VIEWISH):
+                        continue
+                    base = root(n.value)
+                    if isinstance(base, ast.Name) and (base.id in params or base.id in borrowed) and base.id not in ("self", "cls", "np", "numpy"):
+                        borrowed.setdefault(n.targets[0].id, n.lineno)
         bad = []
+        rel = os.path.relpath(fs.path, extract.REPO)
         for n in ast.walk(fn):
             if isinstance(n, ast.AugAssign) and isinstance(n.target, ast.Name) and n.target.id in borrowed:
-                bad.append(f"{os.path.relpath(fs.path, extract.REPO)}:{n.lineno} `{ast.unparse(n)}` updates in place the object bound at line {borrowed[n.target.id]} "
+                bad.append(f"{rel}:{n.lineno} `{ast.unparse(n)}` updates in place the object bound at line {borrowed[n.target.id]} (a piece of an argument)")
+            # x.sort() / x.fill(..) / x.resize(..) / x.put(..) / x.itemset(..) on a borrowed array, and x[...] = ... / x[...] op= ...
+            if (isinstance(n, ast.Call) and isinstance(n.func, ast.Attribute) and isinstance(n.func.value, ast.Name) and n.func.value.id in borrowed
+                    and n.func.attr in ("sort", "fill", "resize", "put", "itemset", "partition", "byteswap")):
+                bad.append(f"{rel}:{n.lineno} `{ast.unparse(n)}` reorders / overwrites in place the object bound at line {borrowed[n.func.value.id]} "
                            f"(a piece of an argument)")
+            if isinstance(n, (ast.Assign, ast.AugAssign)):
+                for t in (n.targets if isinstance(n, ast.Assign) else [n.target]):
+                    if isinstance(t, ast.Subscript) and isinstance(t.value, ast.Name) and t.value.id in borrowed:
+                        bad.append(f"{rel}:{n.lineno} `{ast.unparse(t)} = ...` writes into the object bound at line {borrowed[t.value.id]} (a piece of an argument)")
+            # a parameter itself sorted / filled in place
+            if (isinstance(n, ast.Call) and isinstance(n.func, ast.Attribute) and isinstance(n.func.value, ast.Name) and n.func.value.id in params
+                    and n.func.value.id not in ("self", "cls") and n.func.attr in ("sort", "fill", "resize", "put", "itemset", "partition")):
+                bad.append(f"{rel}:{n.lineno} `{ast.unparse(n)}` reorders / overwrites the caller's argument in place")
         res.append({"name": f"{prop}/effects/{qual.split('.', 1)[1]}/arguments-not-updated-in-place", "status": "refuted" if bad else "discharged",
                     "reason": "; ".join(bad) or None})
     return res
@@ -324,7 +355,8 @@ def check_no_set_order_dependence(prop):
         rel = os.path.relpath(path, extract.REPO)
         for q, fn in fns:
             names, _ = _rng_sources(fn)
-            if not names:
+            # ... and every function that assembles the prior (the ORDER of its parameters decides which draw each one gets)
+            if not names and mod not in ("thejoker.prior", "thejoker.prior_helpers"):
                 continue
             for n in ast.walk(fn):
                 for ch in ast.iter_child_nodes(n):
@@ -332,7 +364,9 @@ def check_no_set_order_dependence(prop):
             bad = []
             setnames = set()
             for n in ast.walk(fn):
-                is_set = isinstance(n, (ast.Set, ast.SetComp)) or (isinstance(n, ast.Call) and dotted(n.func) in ("set", "frozenset"))
+                is_set = isinstance(n, (ast.Set, ast.SetComp)) or (isinstance(n, ast.Call) and dotted(n.func) in ("set", "frozenset")) or \
+                    (isinstance(n, ast.BinOp) and isinstance(n.op, (ast.BitAnd, ast.BitOr, ast.Sub, ast.BitXor)) and any(
+                        isinstance(x, ast.Call) and isinstance(x.func, ast.Attribute) and x.func.attr in ("keys", "items") for x in (n.left, n.right)))
                 if not is_set:
                     continue
                 par = getattr(n, "_parent", None)
@@ -354,4 +388,20 @@ def check_no_set_order_dependence(prop):
                     bad.append(f"{rel}:{getattr(n, 'lineno', getattr(it, 'lineno', 0))} the set `{it.id}` is consumed in iteration order")
             res.append({"name": f"{prop}/effects/{mod.split('.', 1)[1]}.{q}/no-dependence-on-set-iteration-order", "status": "refuted" if bad else "discharged",
                         "reason": "; ".join(bad) or None})
+    return res
+
+
+def check_pool_left_open(prop):
+    """C13: the library never closes (or terminates) the pool the caller handed to it - a failed call must leave the sampler usable"""
+    res = []
+    for mod in ("thejoker.multiproc_helpers", "thejoker.thejoker", "thejoker.utils"):
+        fns, path = functions(mod)
+        rel = os.path.relpath(path, extract.REPO)
+        bad = []
+        for q, fn in fns:
+            for n in ast.walk(fn):
+                if isinstance(n, ast.Call) and isinstance(n.func, ast.Attribute) and n.func.attr in ("close", "terminate", "join") \
+                        and dotted(n.func.value) in ("pool", "self.pool"):
+                    bad.append(f"{rel}:{n.lineno} {q}: {ast.unparse(n)}")
+        res.append({"name": f"{prop}/effects/{mod.split('.', 1)[1]}/callers-pool-never-closed", "status": "refuted" if bad else "discharged", "reason": "; ".join(bad) or None})
     return res
